@@ -14,6 +14,7 @@ Definition text (i : item) : list Z :=
   | IDot s => 46 :: s
   | IOpen => [40] | IClose => [41]
   | IQuest => [63] | IColon => [58] | ILBrack => [91] | IRBrack => [93]
+  | INew => [110; 101; 119] | ICallOpen => [40]
   end.
 Definition sp (b : bool) : list Z := if b then [32] else [].
 
@@ -33,13 +34,14 @@ Definition pre_sp (mw : bool) (st : pst) (i : item) : bool :=
       | _ => if op_is_keyword o then id_hazard st else op_hazard st o
       end
   | IDot _ => match mk st with MNum => true | _ => false end
+  | INew => id_hazard st
   | IQuest | IColon => negb mw
   | _ => false
   end.
 Definition post_sp (mw : bool) (i : item) : bool :=
   match i with
   | IOp o => match op_kind o with KBin => negb mw | _ => op_is_keyword o && negb mw end
-  | IQuest | IColon => negb mw
+  | IQuest | IColon | INew => negb mw
   | _ => false
   end.
 Definition after (mw : bool) (st : pst) (i : item) : pst := fst (emit mw i st).
@@ -75,7 +77,7 @@ Proof. destruct o; discriminate. Qed.
 (* ---- what an emission appends ---- *)
 Lemma emit_out mw i st : snd (emit mw i st) = sp (pre_sp mw st i) ++ text i ++ sp (post_sp mw i).
 Proof.
-  destruct i as [s|s|b f|o|s| | | | | |]; unfold emit, pre_sp, post_sp, text.
+  destruct i as [s|s|b f|o|s| | | | | | | |]; unfold emit, pre_sp, post_sp, text.
   - rewrite seq_snd, psbi_snd, pr_snd. simpl. rewrite app_nil_r. reflexivity.
   - rewrite !seq_snd, psbi_snd, pr_snd. simpl. rewrite !app_nil_r. reflexivity.
   - rewrite !seq_snd, pr_snd. simpl snd at 2. rewrite !app_nil_r.
@@ -99,6 +101,8 @@ Proof.
   - rewrite !seq_snd, !ps_snd, pr_snd. rewrite <- app_assoc. reflexivity.
   - reflexivity.
   - reflexivity.
+  - rewrite !seq_snd, psbi_snd, pr_snd, ps_snd. rewrite <- app_assoc. reflexivity.
+  - reflexivity.
 Qed.
 
 (* ---- the state an emission leaves ---- *)
@@ -121,7 +125,7 @@ Lemma after_lastc_mk mw st i :
   mk (after mw st i) = (if post_sp mw i then MNone else natural_mark i).
 Proof.
   intro Hne. unfold after.
-  destruct i as [s|s|b f|o|s| | | | | |]; unfold emit, post_sp, text, natural_mark in *.
+  destruct i as [s|s|b f|o|s| | | | | | | |]; unfold emit, post_sp, text, natural_mark in *.
   - rewrite seq_fst, pr_fst by exact Hne. split; reflexivity.
   - rewrite !seq_fst, set_mark_fst, pr_fst by exact Hne. split; reflexivity.
   - rewrite !seq_fst, set_mark_fst, pr_fst by discriminate. split; reflexivity.
@@ -147,6 +151,8 @@ Proof.
   - destruct mw; split; reflexivity.
   - destruct mw; split; reflexivity.
   - split; reflexivity.
+  - split; reflexivity.
+  - rewrite !seq_fst, ps_fst. destruct mw; simpl; split; reflexivity.
   - split; reflexivity.
 Qed.
 
@@ -185,7 +191,7 @@ Definition ends_operand (i : item) : bool :=
   match i with IId _ | INum _ | IRe _ _ | IDot _ | IClose | IRBrack => true | IOp _ => is_post i | _ => false end.
 Definition starts_operand (i : item) : bool :=
   match i with
-  | IId _ | INum _ | IRe _ _ | IOpen => true
+  | IId _ | INum _ | IRe _ _ | IOpen | INew => true
   | IOp o => match op_kind o with KPre => true | _ => false end
   | _ => false
   end.
@@ -200,11 +206,12 @@ Definition adj (a b : item) : bool :=
                | KPost => match a with IId _ | IDot _ | IClose | IRBrack => true | _ => false end
                | KPre => false
                end
-    | IDot _ | ILBrack => negb (is_post a)
+    | IDot _ | ILBrack | ICallOpen => negb (is_post a)
     | IClose | IRBrack | IQuest | IColon => true
     | _ => false
     end
-  else starts_operand b && (if is_update_pre a then match b with IId _ | IOpen => true | _ => false end else true).
+  else (starts_operand b || (match a, b with ICallOpen, IClose => true | _, _ => false end))
+       && (if is_update_pre a then match b with IId _ | IOpen => true | _ => false end else true).
 
 Fixpoint chain (prev : option item) (l : list item) : bool :=
   match l with
@@ -307,7 +314,7 @@ Definition next_hd (mw : bool) (st' : pst) (post : bool) (r : list item) : Z :=
 
 Lemma text_ok i : item_ok i -> text i <> [] /\ hdz (text i) <> 32.
 Proof.
-  destruct i as [s|s|b f|o|s| | | | | |]; simpl; intro H.
+  destruct i as [s|s|b f|o|s| | | | | | | |]; simpl; intro H.
   - destruct H as [Hw _]. destruct (word_shape_hd s Hw) as [Hne Hs]. split; [exact Hne|]. apply id_start_facts in Hs. tauto.
   - destruct H as [Hne Hall]. split; [exact Hne|]. destruct s as [|c s']; [congruence|]. simpl in *.
     apply andb_true_iff in Hall as [Hc _]. apply digit_facts in Hc. unfold id_part, id_start, digit in Hc. lia.
@@ -316,6 +323,8 @@ Proof.
     destruct (op_is_keyword o) eqn:Ew.
     + destruct (Fk eq_refl) as (_ & Hs & _). apply id_start_facts in Hs. tauto.
     + destruct (Fn eq_refl) as (_ & _ & H32 & _). exact H32.
+  - split; [discriminate | simpl; lia].
+  - split; [discriminate | simpl; lia].
   - split; [discriminate | simpl; lia].
   - split; [discriminate | simpl; lia].
   - split; [discriminate | simpl; lia].
@@ -346,11 +355,13 @@ Definition need (ls : bool) (i : item) (c : Z) : bool :=
   | IColon => negb (memz c (hazard_chars ls [58]))
   | ILBrack => negb (memz c (hazard_chars ls [91]))
   | IRBrack => negb (memz c (hazard_chars ls [93]))
+  | INew => negb (id_part c) && negb (c =? 92)
+  | ICallOpen => negb (memz c (hazard_chars ls [40]))
   end.
 
 Lemma need_trivial ls i c : c = 32 \/ c = -1 -> need ls i c = true.
 Proof.
-  intros Hc. destruct i as [s|s|b f|o|s| | | | | |]; simpl.
+  intros Hc. destruct i as [s|s|b f|o|s| | | | | | | |]; simpl.
   - destruct Hc; subst; reflexivity.
   - destruct Hc; subst; reflexivity.
   - destruct Hc; subst; reflexivity.
@@ -363,6 +374,8 @@ Proof.
   - destruct ls; destruct Hc; subst; reflexivity.
   - destruct ls; destruct Hc; subst; reflexivity.
   - destruct ls; destruct Hc; subst; reflexivity.
+  - destruct ls; destruct Hc; subst; reflexivity.
+  - destruct Hc; subst; reflexivity.
   - destruct ls; destruct Hc; subst; reflexivity.
 Qed.
 
@@ -473,7 +486,7 @@ Proof.
   { intros lc m He Hnp Hhaz Hpre. unfold adj in Hadj. rewrite He in Hadj.
     assert (Hid : id_hazard (st_abs lc b60 m e) = true).
     { unfold id_hazard, st_abs. simpl. destruct Hhaz as [Hh|[Hh|Hh]]; [rewrite Hh; reflexivity | subst m; rewrite orb_true_r; reflexivity | rewrite Hh; apply orb_true_r]. }
-    destruct j as [s'|s'|b' f'|o'|s'| | | | | |]; try discriminate.
+    destruct j as [s'|s'|b' f'|o'|s'| | | | | | | |]; try discriminate.
     - destruct (op_facts o') as (_ & Fn & Fk).
       destruct (op_is_keyword o') eqn:Ew'.
       + exfalso. unfold pre_sp in Hpre. rewrite Ew', Hid in Hpre.
@@ -485,8 +498,9 @@ Proof.
     - simpl. split; [reflexivity|]. intros _. reflexivity.
     - simpl. split; [reflexivity|]. intros _. reflexivity.
     - simpl. split; [reflexivity|]. intros _. reflexivity.
+    - simpl. split; [reflexivity|]. intros _. reflexivity.
     - simpl. split; [reflexivity|]. intros _. reflexivity. }
-  destruct i as [s|s|b f|o|s| | | | | |].
+  destruct i as [s|s|b f|o|s| | | | | | | |].
   - (* IId *) left. destruct Hi as [Hs _]. destruct (word_last_gen s Hs) as [Hl _].
     assert (Hhz : is_id_part (last s 0) = true \/ MNone = MRe \/ e = true).
     { destruct Hl as [Hl|Hl]; [left; exact Hl | right; right].
@@ -506,7 +520,7 @@ Proof.
       simpl natural_mark in Epre. rewrite Ew in Epre.
       assert (Hid : id_hazard (st_abs (last (text (IOp o)) 0) b60 MNone e) = true).
       { unfold id_hazard, st_abs. simpl lastc. simpl text. rewrite id_part_same, Hl. reflexivity. }
-      destruct j as [s'|s'|b' f'|o'|s'| | | | | |]; try discriminate.
+      destruct j as [s'|s'|b' f'|o'|s'| | | | | | | |]; try discriminate.
       * exfalso. unfold pre_sp in Epre. rewrite Hid in Epre. discriminate.
       * exfalso. unfold pre_sp in Epre. rewrite Hid in Epre. discriminate.
       * reflexivity.
@@ -516,6 +530,7 @@ Proof.
         -- exfalso. unfold pre_sp in Epre. rewrite Ek', Ew', Hid in Epre. discriminate.
         -- destruct (Fn' eq_refl) as (A & _ & _ & B92 & _). simpl text. rewrite A. apply Z.eqb_neq in B92. rewrite B92. reflexivity.
       * reflexivity.
+      * exfalso. unfold pre_sp in Epre. rewrite Hid in Epre. discriminate.
     + (* punctuator operator *)
       simpl need. rewrite Ew. simpl natural_mark in Epre. rewrite Ew in Epre. simpl text in Epre.
       destruct (is_post (IOp o)) eqn:Epost.
@@ -525,7 +540,7 @@ Proof.
           simpl in Hprev. simpl in Epost. destruct (op_kind o); discriminate. }
         rewrite Hls. rewrite post_hazards; [reflexivity|]. simpl in Epost. destruct (op_kind o); try discriminate. reflexivity.
       * unfold adj in Hadj. change (ends_operand (IOp o)) with (is_post (IOp o)) in Hadj. rewrite Epost in Hadj. apply andb_true_iff in Hadj as [Hso Hupd].
-        destruct j as [s'|s'|b' f'|o'|s'| | | | | |]; try discriminate.
+        destruct j as [s'|s'|b' f'|o'|s'| | | | | | | |]; try discriminate.
         -- left. destruct Hj as [Hs' _]. destruct (word_last_gen s' Hs') as [_ Hh]. simpl text. rewrite (hazard_not_id ls o _ Hh). reflexivity.
         -- left. destruct (num_last s' Hj) as [_ Hh]. simpl text. rewrite (hazard_not_id ls o _ Hh). reflexivity.
         -- left. simpl text. simpl hdz.
@@ -546,6 +561,7 @@ Proof.
                  exists r'. split; [reflexivity | exact Epre0].
               ** left. simpl text. rewrite E. reflexivity.
         -- left. simpl text. simpl hdz. destruct (Fh ls) as (_ & _ & A & _). rewrite A. reflexivity.
+        -- left. simpl text. simpl hdz. rewrite (hazard_not_id ls o 110); reflexivity.
   - (* IDot *) left. destruct Hi as [Hs _]. destruct (word_last s Hs) as [Hl _].
     assert (Hl' : is_id_part (last (text (IDot s)) 0) = true).
     { simpl text. destruct Hs as [Hne' _]. rewrite last_cons_ne by exact Hne'. exact Hl. }
@@ -556,7 +572,7 @@ Proof.
     left. unfold need. destruct (simple_hazards ls) as (E & _). rewrite E.
     unfold adj in Hadj. simpl ends_operand in Hadj. apply andb_true_iff in Hadj as [Hso _].
     assert (Hc : hdz (text j) <> 63 /\ hdz (text j) <> 46).
-    { destruct j as [s'|s'|b' f'|o'|s'| | | | | |]; try discriminate; simpl text; simpl hdz; try (split; discriminate).
+    { destruct j as [s'|s'|b' f'|o'|s'| | | | | | | |]; try discriminate; simpl text; simpl hdz; try (split; discriminate).
       - destruct Hj as [Hs' _]. destruct (word_last_gen s' Hs') as [_ Hh]. unfold id_part, id_start, digit in Hh. lia.
       - destruct (num_last s' Hj) as [_ Hh]. unfold id_part, id_start, digit in Hh. lia.
       - simpl in Hso. destruct o'; try discriminate; split; discriminate. }
@@ -564,4 +580,17 @@ Proof.
   - left. unfold need. destruct (simple_hazards ls) as (_ & E & _). rewrite E. reflexivity.
   - left. unfold need. destruct (simple_hazards ls) as (_ & _ & E & _). rewrite E. reflexivity.
   - left. unfold need. destruct (simple_hazards ls) as (_ & _ & _ & E). rewrite E. reflexivity.
+  - (* "new": glues like a keyword operator *)
+    left. unfold need.
+    unfold adj in Hadj. simpl ends_operand in Hadj. apply andb_true_iff in Hadj as [Hso _].
+    assert (Hid : id_hazard (st_abs (last (text INew) 0) b60 (natural_mark INew) e) = true) by reflexivity.
+    destruct j as [s'|s'|b' f'|o'|s'| | | | | | | |]; try discriminate.
+    + reflexivity.
+    + destruct (op_facts o') as (_ & Fn' & Fk'). simpl in Hso.
+      destruct (op_kind o') eqn:Ek'; try discriminate.
+      destruct (op_is_keyword o') eqn:Ew'.
+      * exfalso. unfold pre_sp in Epre. rewrite Ek', Ew', Hid in Epre. discriminate.
+      * destruct (Fn' eq_refl) as (A & _ & _ & B92 & _). simpl text. rewrite A. apply Z.eqb_neq in B92. rewrite B92. reflexivity.
+    + reflexivity.
+  - left. unfold need. destruct (paren_hazards ls) as [E _]. rewrite E. reflexivity.
 Qed.
